@@ -4,6 +4,7 @@ CONSTANTS
   NF = 2
   FO <- Geo3x2
   SYNC = TRUE
+  WERR = "first"
   DESIGN = "code"
 INVARIANT InvTrust
 CHECK_DEADLOCK FALSE
